@@ -86,10 +86,10 @@ class Decl:
             else:
                 self.labels.append((key, None, vals))
         # one program in eight: one label has many values (18-40), renamed so that name order and value order differ
-        if rng.random() < 0.125:
+        if rng.random() < (0.3 if auto_flush else 0.125):
             li = rng.randrange(nlabels)
             key, ei, _ = self.labels[li]
-            n = rng.choice([18, 33, 40])
+            n = rng.choice([33, 40, 70] if auto_flush else [18, 33, 40])
             vals = [("k%02d" % i, "val%02d" % ((i * 7) % n)) for i in range(n)]
             if ei is not None:
                 self.enums.append(("E%d_%d" % (idx, len(self.enums)), vals))
@@ -195,7 +195,7 @@ class Decl:
             out.append("    let vec = %s::new(%s, &[%s]).unwrap();" % (vt, opts, perm))
             out.append("    let m = %s::from(&vec);" % self.struct)
         expected = {}  # value tuple (declaration order) -> (sum, count)
-        pend = {}  # value tuple -> (amount, observations) accumulated locally since the last flush (long interval only)
+        pend = {}  # leaf (identifier path) -> (amount, observations) accumulated locally since the last flush (long interval only)
         npaths = 0
         num = (lambda a: "%d.0" % a) if base in ("Counter", "Gauge", "Histogram") else (lambda a: "%d" % a)
         if self.auto_flush and not self.zero_interval:
@@ -229,14 +229,17 @@ class Decl:
                     else:
                         e += "." + ident
                 variants.append(e)
+            # what is pending is per leaf (each leaf owns a local metric); what reaches the vector is per value tuple:
+            # with n = 70 the multiplier 7 deliberately maps seven variants onto each value
+            leaf = tuple(idents)
             for expr in variants:
                 amount = rng.randint(1, 1 << 20)
                 out.append("    " + self.update_code(expr, amount))
                 key = tuple(tup)
                 s, c = expected.get(key, (0, 0))
                 expected[key] = (s + amount, c + 1)
-                pa, pc_ = pend.get(key, (0, 0))
-                pend[key] = (pa + amount, pc_ + 1)
+                pa, pc_ = pend.get(leaf, (0, 0))
+                pend[leaf] = (pa + amount, pc_ + 1)
                 npaths += 1
             if self.auto_flush:
                 expr = variants[0]
@@ -245,18 +248,18 @@ class Decl:
                     out.append("    %s.inc();" % expr)
                     s0, c0 = expected.get(key, (0, 0))
                     expected[key] = (s0 + 1, c0 + 1)
-                    pa, pc_ = pend.get(key, (0, 0))
-                    pend[key] = (pa + 1, pc_ + 1)
+                    pa, pc_ = pend.get(leaf, (0, 0))
+                    pend[leaf] = (pa + 1, pc_ + 1)
                     # the local getter shows what is pending: nothing when every update flushes, everything otherwise
-                    pending = 0 if self.zero_interval else pend[key][0]
+                    pending = 0 if self.zero_interval else pend[leaf][0]
                     out.append("    if %s.get() != %s { r.fail(%d, \"auto-flush-local-get-wrong\", format!(\"%s.get() = {:?}, pending amount is %s\", %s.get())); }" % (expr, num(pending), self.idx, expr.replace('"', "'"), num(pending), expr))
                 else:
                     out.append("    if %s.observe_closure_duration(|| %d) != %d { r.fail(%d, \"auto-flush-closure-result-lost\", String::new()); }" % (expr, self.idx + 7, self.idx + 7, self.idx))
                     s0, c0 = expected.get(key, (0, 0))
                     expected[key] = (s0, c0 + 1)  # the timed closure adds one observation of a few nanoseconds
-                    pa, pc_ = pend.get(key, (0, 0))
-                    pend[key] = (pa, pc_ + 1)
-                    pc = 0 if self.zero_interval else pend[key][1]
+                    pa, pc_ = pend.get(leaf, (0, 0))
+                    pend[leaf] = (pa, pc_ + 1)
+                    pc = 0 if self.zero_interval else pend[leaf][1]
                     out.append("    if %s.get_sample_count() != %d { r.fail(%d, \"auto-flush-local-get-wrong\", format!(\"get_sample_count = {}, pending observations are %d\", %s.get_sample_count())); }" % (expr, pc, self.idx, pc, expr))
                 out.append("    r.part.count(\"auto_flush_getter_checks\", 1);")
                 if rng.random() < 0.2:
